@@ -240,11 +240,10 @@ start_pass_phuff(j_compress_ptr cinfo, boolean gather_statistics)
     } else {
       entropy->ac_tbl_no = tbl = compptr->ac_tbl_no;
     }
+    /* Check for invalid table index */
+    if (tbl < 0 || tbl >= NUM_HUFF_TBLS)
+      ERREXIT1(cinfo, JERR_NO_HUFF_TABLE, tbl);
     if (gather_statistics) {
-      /* Check for invalid table index */
-      /* (make_c_derived_tbl does this in the other path) */
-      if (tbl < 0 || tbl >= NUM_HUFF_TBLS)
-        ERREXIT1(cinfo, JERR_NO_HUFF_TABLE, tbl);
       /* Allocate and zero the statistics tables */
       /* Note that jpeg_gen_optimal_table expects 257 entries in each table! */
       if (entropy->count_ptrs[tbl] == NULL)
